@@ -5,7 +5,7 @@ A=1 runs the model in aliasing mode (pinned-tree behaviour of array:put/append/i
 Every op binds its result to the next variable $0, $1, ...
 
 keys:  i<int>  d<p>/<q>  f<p>/<q>  fz (-0.0)  fn (NaN)  fp / fm (±INF)  s<cp.cp...>  u<cp.cp...>
-       b0 b1   t<year>_<utc>_<tz|n>
+       b0 b1   t<year>_<utc>_<tz|n>   n<cp.cp...> (untypedAtomic)
 ops (fields separated by `,`, list elements by `+`):
   seq,<arg>+<arg>          arg = $n | key          mctor,<key>:$n+<key>:$n
   mput,$m,<key>,$v   mremove,$m,<key>+..   mget,$m,<key>   mcontains,$m,<key>   msize,$m   mkeys,$m
@@ -18,7 +18,7 @@ ops (fields separated by `,`, list elements by `+`):
   apair,$a,$b,<fn2>   mfe,$m,<fn2>   deq,$a,$b          key o<tag>_<int.int...> (QName 1, duration 2, hexBinary 3, base64Binary 4)
 
 Answer: one block per step, blocks separated by `|`:
-  <model status>~<spec status>~<noClash of the keys used so far: 1|0>~<val>&<val>&...
+  <model status>~<spec status>~<noClash of the keys used so far and no clashing atoms in a deep-equal: 1|0>~<val>&<val>&...
 with one <val> per variable bound so far:  <model raw>^<model sorted>^<spec sorted>, or `=` when
 all three are unchanged since the previous step
 status = ok | ERR:<code>.  raw = insertion order; sorted = map entries sorted, order-free
@@ -42,6 +42,7 @@ def showKey : Key → String
   | .bool b => if b then "b1" else "b0"
   | .date y u tz => s!"t{y}_{u}_" ++ (match tz with | some z => toString z | none => "n")
   | .opq t r => s!"o{t}_" ++ ".".intercalate (r.map toString)
+  | .unt s => "n" ++ ".".intercalate (s.map toString)
 
 def parseRat (s : String) : Option Rat :=
   match s.splitOn "/" with
@@ -62,6 +63,7 @@ def parseKey (s : String) : Option Key :=
     else (parseRat rest).map fun r => .dbl r false
   | some 's' => (parseCps rest).map .str
   | some 'u' => (parseCps rest).map .uri
+  | some 'n' => (parseCps rest).map .unt
   | some 'b' => if rest == "1" then some (.bool true) else if rest == "0" then some (.bool false) else none
   | some 'o' =>
     match rest.splitOn "_" with
@@ -235,7 +237,7 @@ def answer (line : String) : String :=
             let atoms := atomsOf mst.store fuel (mst.var a) ++ atomsOf mst.store fuel (mst.var b)
             atoms.any fun x => atoms.any fun y => atomClash x y
           | _ => false
-        let bl' := bl || opBoolLookup op || dqClash
+        let bl' := bl || dqClash
         let ok := noClash keys' && !bl'
         let vals := (List.range ords'.length).map fun j =>
           let o := ords'.getD j .ordered
